@@ -54,7 +54,7 @@ def run(tier):
         "r": lambda: P.leg_r(wd, binary, PROP, "Pool_pool_edges.cfg", scens, "pool", rng, verdict, devs, accept=acc,
                              max_paths=(320 if q else None), max_len=40),
         "t": lambda: P.leg_t(wd, binary, PROP, "c05", verdict, devs, histories=(80 if q else 900), steps=(45 if q else 70), accept=acc,
-                             extra_env=({"VERIF_HEAVY": 4, "VERIF_SCRIPTED": 5, "VERIF_SCRIPT_KINDS": "storage-proof,mixed-inputs,storage-proof,cross-kind-eviction,storage-proof"} if q else {"VERIF_FAT": 4, "VERIF_HEAVY": 16, "VERIF_SCRIPTED": 36}), timeout=3000),
+                             extra_env=({"VERIF_HEAVY": 4, "VERIF_SCRIPTED": 6, "VERIF_SCRIPT_KINDS": "storage-proof,mixed-inputs,boundary,cross-kind-eviction,storage-proof,boundary"} if q else {"VERIF_FAT": 4, "VERIF_HEAVY": 16, "VERIF_SCRIPTED": 40, "VERIF_SCRIPT_KINDS": "storage-proof,mixed-inputs,boundary,cross-kind-eviction,boundary"}), timeout=3000),
     })
     ms, rr, tt = [res["m1"], res["m2"]], [res["r"]], res["t"]
     probes = {"DevEphDrop breaks RetentionStrict": res["p"]}
